@@ -487,6 +487,9 @@ class Check(PropertyCheck):
         self.tier = tier
         self.pool = build_pool()
         assert len(self.pool) >= 40
+        if not getattr(self, "_selftested", False):
+            self._selftested = True
+            self.known_selftest()
         if tier == "thorough":
             self.parallel = True
             try: os.sched_setaffinity(0, set(sorted(os.sched_getaffinity(0))[:8]))    # the machine is shared: stay on 8 CPUs
@@ -798,11 +801,66 @@ class Check(PropertyCheck):
     def _known_one(self, case, obs, failure):
         """F-C42a: exactly the verdicts that become the documented ones when a ~h/~hq/~hs regex is read against the
         CRLF-joined header block (what the code searches) instead of each "name: value" line"""
-        if case.get("kind") == "render" and failure.startswith("verdict:") and has_hdr_atom(case["tree"]) and obs.get("v"):
-            if self.pool is None: self.setup("quick")
-            if "".join("1" if x else "0" for x in self.ref_eval(case["tree"], crlf=True)) == obs["v"]:
-                return "F-C42a"
+        # recorded kind of failure: the verdict clause only (a rejected rendering or a different tree is never excused),
+        # and the expression was parsed as written
+        if case.get("kind") != "render" or not failure.startswith("verdict:") or not isinstance(obs, dict) or not obs.get("v"):
+            return None
+        if obs.get("shape") != shape_of_tree(case["tree"]):
+            return None
+        # recorded input class: a ~h/~hq/~hs leaf, and the whole observed verdict vector is the documented one with those
+        # leaves (and nothing else) read against the CRLF-joined block
+        if not has_hdr_atom(case["tree"]):
+            return None
+        if self.pool is None: self.setup("quick")
+        bits = lambda v: "".join("1" if x else "0" for x in v)
+        if bits(self.ref_eval(case["tree"], crlf=True)) == obs["v"] and bits(self.ref_eval(case["tree"])) != obs["v"]:
+            return "F-C42a"
         return None
+
+    def known_selftest(self):
+        """the classifier of F-C42a fires on its witness and on nothing near it (notes/known_audit.txt)"""
+        bits = lambda v: "".join("1" if x else "0" for x in v)
+        flip = lambda b, i: b[:i] + ("0" if b[i] == "1" else "1") + b[i + 1:]
+        R = lambda tree, s: {"kind": "render", "tree": tree, "s_hex": tx(s)}
+        def obs_of(tree, v, shape=None): return {"shape": shape or shape_of_tree(tree), "v": v, "atoms": []}
+        def clause(case, obs, kind):
+            fs = [f for f in self.oracle(case, obs) if f.split(" ", 1)[-1].startswith(kind) or f.startswith(kind)]
+            assert fs, ("selftest: oracle gives no %r failure" % kind, case, obs)
+            return fs[0]
+        wit = R(["R", "h", "qvalue$"], "~h qvalue$")
+        crlf = bits(self.ref_eval(wit["tree"], crlf=True)); doc = bits(self.ref_eval(wit["tree"]))
+        assert crlf != doc, "selftest: the pool no longer separates the two readings of ~h"
+        comp = R(["O", [["R", "hq", "qvalue$"], ["N", ["U", "e"]]]], "~hq qvalue$ | !~e")
+        comp_crlf = bits(self.ref_eval(comp["tree"], crlf=True))
+        assert comp_crlf != bits(self.ref_eval(comp["tree"]))
+        nohdr = R(["R", "b", "content$"], "~b content$"); nohdr_doc = bits(self.ref_eval(nohdr["tree"]))
+        ct = R(["R", "t", "html$"], "~t html$"); ct_doc = bits(self.ref_eval(ct["tree"]))
+        other = R(["R", "u", "\\D"], "~u \\D"); other_doc = bits(self.ref_eval(other["tree"]))
+        seq = {"kind": "seq", "items": [wit, other]}
+        seq_obs = {"items": [obs_of(wit["tree"], crlf), obs_of(other["tree"], flip(other_doc, 5))]}
+        triples = [
+            # the recorded finding: ~h leaf, parsed as written, verdicts = CRLF-block reading
+            (wit, obs_of(wit["tree"], crlf), "verdict:", "F-C42a"),
+            (comp, obs_of(comp["tree"], comp_crlf), "verdict:", "F-C42a"),
+            (seq, seq_obs, "#0 verdict:", "F-C42a"),
+            # (a) same input class, different failure clause
+            (wit, {"shape": "reject", "v": None, "atoms": []}, "rejected-but-should-parse", None),
+            (wit, obs_of(wit["tree"], crlf, shape="Ru:" + tx("qvalue$")), "tree:", None),
+            (wit, obs_of(wit["tree"], crlf, shape="Ru:" + tx("qvalue$")), "verdict:", None),
+            # (a) same input class, verdicts that are NOT the CRLF reading
+            (wit, obs_of(wit["tree"], flip(crlf, 0)), "verdict:", None),
+            (wit, obs_of(wit["tree"], "0" * len(crlf)) if "0" * len(crlf) not in (crlf, doc) else obs_of(wit["tree"], flip(crlf, 1)), "verdict:", None),
+            (comp, obs_of(comp["tree"], flip(comp_crlf, len(comp_crlf) - 3)), "verdict:", None),
+            # (b) just outside the class: no ~h/~hq/~hs leaf, same kind of failure
+            (nohdr, obs_of(nohdr["tree"], flip(nohdr_doc, 0)), "verdict:", None),
+            (ct, obs_of(ct["tree"], flip(ct_doc, 1)), "verdict:", None),
+            (seq, seq_obs, "#1 verdict:", None),
+        ]
+        for case, obs, kind, want in triples:
+            f = clause(case, obs, kind)
+            got = self.known(case, obs, f)
+            assert got == want, ("known() selftest: expected %r, got %r" % (want, got), case, f)
+
 
     # ---- model tie ---------------------------------------------------------------------------------
     def _lines_one(self, case):
